@@ -29,45 +29,62 @@ WF(e) == /\ (e.k = "none" => (e.to = T0 /\ e.d = D0))     \* one representative 
          /\ (e.k = "call" => e.to = T0)
 Graphs == { g \in [Templates -> Edge] : \A t \in Templates : WF(g[t]) }
 
-VARIABLES g, cur, level, scopeSize, copyDepth, disabled, seenExt, stack, status
-vars == <<g, cur, level, scopeSize, copyDepth, disabled, seenExt, stack, status>>
+VARIABLES g, cur, level, scopeSize, copyDepth, disabled, seenExt, stack, status, cut
+vars == <<g, cur, level, scopeSize, copyDepth, disabled, seenExt, stack, status, cut>>
 
+Fresh == 4     \* a new RenderContext's scope chain: locals, globals, builtin, counters
+(* the top-level render extends the fresh scope once (render_with_context pushes the template namespace) *)
 Init == /\ g \in Graphs
-        /\ cur = "t1" /\ level = 0 /\ scopeSize = 1 /\ copyDepth = 0 /\ disabled = FALSE
-        /\ seenExt = {} /\ stack = 0 /\ status = "running"
+        /\ cur = "t1" /\ level = 0 /\ scopeSize = Fresh + 1 /\ copyDepth = 0 /\ disabled = FALSE
+        /\ seenExt = {} /\ stack = 0 /\ status = "running" /\ cut = "none"
 
 Cost(e) == FramePerLevel + FramePerBlock * e.d
-Stop(s) == status' = s /\ UNCHANGED <<g, cur, level, scopeSize, copyDepth, disabled, seenExt, stack>>
+Stop(s, why) == status' = s /\ cut' = why /\ UNCHANGED <<g, cur, level, scopeSize, copyDepth, disabled, seenExt, stack>>
+(* refused by the second push of an include: the partial's render_with_context had already been entered *)
+StopInside(s, why) == status' = s /\ cut' = why /\ level' = level + 1 /\ UNCHANGED <<g, cur, scopeSize, copyDepth, disabled, seenExt, stack>>
+
+(* `extend` refuses when the chain is already longer than the limit; an include extends twice       *)
+(* (arguments, then the partial's namespace in render_with_context), so it is refused when either   *)
+(* of the two pushes would start from a chain longer than the limit.                                *)
+IncludeRefused(sz) == sz > Limit
+IncludeRefusedInside(sz) == sz + 1 > Limit
 
 Follow ==
   /\ status = "running"
   /\ LET e == g[cur] IN
-     CASE e.k = "none" -> Stop("ok")
-       [] e.k = "call" -> Stop("ok")                  \* a macro is not defined inside its own (copied) context: the inner call renders nothing
+     CASE e.k = "none" -> Stop("ok", "none")
+       [] e.k = "call" -> Stop("ok", "none")          \* a macro is not defined inside its own (copied) context: the inner call renders nothing
        [] e.k = "extends" ->
-            IF e.to \in seenExt \cup {cur} THEN Stop("TemplateInheritanceError")   \* circular extends
-            ELSE /\ seenExt' = seenExt \cup {cur} /\ cur' = e.to
-                 /\ UNCHANGED <<g, level, scopeSize, copyDepth, disabled, stack, status>>
-       [] e.k = "include" /\ disabled -> Stop("DisabledTagError")  \* include inside a rendered partial
-       [] stack + Cost(e) > StackLimit -> Stop("ContextDepthError")               \* StackExhausted: converted, never RecursionError
+            IF e.to \in seenExt \cup {cur} THEN Stop("TemplateInheritanceError", "seen")   \* circular extends
+            ELSE IF scopeSize > Limit THEN Stop("ContextDepthError", "scope")          \* the parent is rendered through render_with_context: one push
+            ELSE /\ seenExt' = seenExt \cup {cur} /\ cur' = e.to /\ scopeSize' = scopeSize + 1
+                 /\ UNCHANGED <<g, level, copyDepth, disabled, stack, status, cut>>
+       [] e.k = "include" /\ disabled -> Stop("DisabledTagError", "disabled")  \* include inside a rendered partial
+       [] stack + Cost(e) > StackLimit -> Stop("ContextDepthError", "stack")          \* StackExhausted: converted, never RecursionError
        [] e.k = "include" ->
-            IF scopeSize > Limit THEN Stop("ContextDepthError")
+            IF IncludeRefused(scopeSize) THEN Stop("ContextDepthError", "scope")
+            ELSE IF IncludeRefusedInside(scopeSize) THEN StopInside("ContextDepthError", "scope")
             ELSE /\ scopeSize' = scopeSize + 2 /\ cur' = e.to /\ level' = level + 1 /\ stack' = stack + Cost(e)
                  /\ seenExt' = {}                              \* a partial starts its own inheritance chain
-                 /\ UNCHANGED <<g, copyDepth, disabled, status>>
+                 /\ UNCHANGED <<g, copyDepth, disabled, status, cut>>
        [] e.k = "render" ->
-            IF copyDepth > Limit THEN Stop("ContextDepthError")
-            ELSE /\ copyDepth' = copyDepth + 1 /\ scopeSize' = 1 /\ disabled' = TRUE /\ cur' = e.to
+            IF copyDepth > Limit THEN Stop("ContextDepthError", "copy")
+            ELSE /\ copyDepth' = copyDepth + 1 /\ scopeSize' = Fresh + 1 /\ disabled' = TRUE /\ cur' = e.to
                  /\ level' = level + 1 /\ stack' = stack + Cost(e)
                  /\ seenExt' = {}
-                 /\ UNCHANGED <<g, status>>
-       [] e.k = "extblock" ->                           \* the block body runs in a copied (block-scoped) context, then includes
-            IF copyDepth > Limit \/ scopeSize > Limit THEN Stop("ContextDepthError")
-            ELSE /\ copyDepth' = copyDepth + 1 /\ scopeSize' = scopeSize + 2 /\ cur' = e.to
+                 /\ UNCHANGED <<g, status, cut>>
+       [] e.k = "extblock" ->
+            (* `base` is rendered through render_with_context (one push, not a partial level); its block body runs in a  *)
+            (* block-scoped copy, which starts from a FRESH scope chain, and includes the target from there             *)
+            IF scopeSize > Limit THEN Stop("ContextDepthError", "scope")
+            ELSE IF copyDepth > Limit THEN Stop("ContextDepthError", "copy")
+            ELSE IF IncludeRefused(Fresh) THEN Stop("ContextDepthError", "scope")
+            ELSE IF IncludeRefusedInside(Fresh) THEN StopInside("ContextDepthError", "scope")
+            ELSE /\ copyDepth' = copyDepth + 1 /\ scopeSize' = Fresh + 2 /\ cur' = e.to
                  /\ level' = level + 1 /\ stack' = stack + Cost(e)
                  /\ seenExt' = {}
                  /\ disabled' = FALSE          \* the block-scoped copy starts with no disabled tags (as the code has it)
-                 /\ UNCHANGED <<g, status>>
+                 /\ UNCHANGED <<g, status, cut>>
 
 Next == Follow
 Spec == Init /\ [][Next]_vars /\ WF_vars(Next)
@@ -75,9 +92,10 @@ Spec == Init /\ [][Next]_vars /\ WF_vars(Next)
 -----------------------------------------------------------------------------
 Terminates == <>(status # "running")
 CutOff == status \in {"running", "ok", "ContextDepthError", "TemplateInheritanceError", "DisabledTagError"}
-LevelsBounded == level <= Limit + 2
+(* two independent counters bound the recursion: the scope chain of one context and the copy depth *)
+LevelsBounded == level <= 2 * Limit + 4 /\ copyDepth <= Limit + 1 /\ scopeSize <= Limit + 2
 (* every level strictly consumes budget: the variant that makes the recursion finite *)
 Progress == [][status' # "running" \/ level' > level
                  \/ (level' = level /\ Cardinality(seenExt') > Cardinality(seenExt))]_vars
-Emit == status # "running" => PrintT(ToJson([g |-> g, status |-> status, level |-> level]))
+Emit == status # "running" => PrintT(ToJson([g |-> g, status |-> status, level |-> level, cut |-> cut]))
 =============================================================================
